@@ -992,3 +992,42 @@ func init() {
 			return false, ""
 		})
 }
+
+// TestC05Big: buffers whose payload crosses the 1 MiB block size of the s2 stream that
+// commit.Log writes through (and multiples of it): a reader behind such a stream gets the
+// payload of ONE commit in several pieces. Sequences of large byte strings (30000..65535
+// bytes, total around 1, 2, 3 MiB +- 70000) in one or two blocks, some of them merges, go
+// through every view of checkC05 incl. Log.Append/Range in memory and on a file.
+func TestC05Big(t *testing.T) {
+	c05TmpDir = t.TempDir()
+	rapid.Check(t, func(t *rapid.T) {
+		target := rapid.SampledFrom([]int{1 << 20, 1 << 20, 2 << 20, 3 << 20}).Draw(t, "around") + rapid.IntRange(-70000, 70000).Draw(t, "delta")
+		off := int32(rapid.SampledFrom([]int{0, 100, 16380, 16384, 40000}).Draw(t, "start"))
+		var ops []bop
+		for total := 0; total < target; {
+			n := rapid.IntRange(30000, 65535).Draw(t, "len")
+			if target-total < 65535 {
+				n = target - total
+			}
+			o := bop{Typ: commit.Put, Off: off, Fixed: -1, Val: strings.Repeat(string(rune('a'+len(ops)%26)), n)}
+			if rapid.IntRange(0, 5).Draw(t, "merge") == 0 {
+				o.Typ = commit.Merge
+				o.Swap = strings.Repeat("#", n) // same length: stays clear of known finding f15
+			}
+			ops = append(ops, o)
+			total += n
+			off += int32(rapid.SampledFrom([]int{1, 1, 2, 130}).Draw(t, "move"))
+			if rapid.IntRange(0, 39).Draw(t, "next-block") == 0 {
+				off += 16384 // rarely: the payload of ONE block's commit must exceed the stream block
+			}
+			if rapid.IntRange(0, 7).Draw(t, "small") == 0 {
+				ops = append(ops, bop{Typ: commit.Put, Off: off, Val: "\x00\x01\x02\x03", Fixed: 4})
+				off++
+			}
+		}
+		if err := checkC05(ops, rapid.IntRange(0, 3).Draw(t, "variant"), c05File); err != nil {
+			t.Fatalf("C05 violated (payload of %d bytes, crossing the stream's 1 MiB block size): %v\nops: %s", target, err, opsString(ops))
+		}
+		RecordCase("C05", fmt.Sprintf("big payload %d bytes: %s", target, opsString(ops)), true, "payload-crosses-stream-block")
+	})
+}
